@@ -287,6 +287,27 @@ theorem proceedH_reply (s : St) :
 -- re-derived on every run by the engine's probes `f5-one-segment` / `f5-cut-inside-early` against the real code;
 -- on such a tree `Gen.C07.connectKeepsReadAhead = false` and `transparent_after_handshake` does not elaborate.
 
+/-
+NOT PROVED (stated here so that the gap is visible; tied to the code by the correspondence engine only):
+
+  connect_faithful : ∀ a, a.wf → httpCarriable a → parseAddr (addrString a) = some a
+     (conn.ParseAddr ∘ conn.Addr.String is the identity on the addresses a CONNECT target can carry; the excluded
+      domain names — containing ':' '[' ']' / CTL / space, or spelling an IP literal — are run against the real
+      client→server pair on every run and the outcomes are printed in the evidence notes; the model's
+      addrString / parseAddr are compared with conn.Addr.String / conn.ParseAddr on 3000 generated addresses per
+      run, and the IPv6 text round trip inside `httpCarriable` is evaluated on each of them).
+     Missing: decimal and dotted-quad print/parse round-trip lemmas, net.SplitHostPort on `host ":" digits`.
+
+  basic_auth_gate : for an injective token encoding `enc` and user names without ':',
+       basicAuth hs (tokenMap enc users) = some u  ↔  the first Basic value of `hs` is enc (u ":" p) for a listed (u, p)
+     Missing: the lemma u ++ ":" ++ p = u' ++ ":" ++ p' ∧ ':' ∉ u, u' → u = u' ∧ p = p' and injectivity of base64.
+     The engine's oracle checks the gate on every HTTPS case (wrong / missing / near-miss credentials incl. shifted colons).
+
+  transparent_after_handshake, client side (the 2xx head followed by server-first data): modelled (`clientConnectH`,
+     stream = bufio read-ahead ++ transport), compared on every httpc case; the conservation proof is the same
+     `readHeadM_spec` (SSV/Proofs/HandshakeHttp.lean) but is not stated as a property theorem here.
+-/
+
 /-- a user found by the server's lookup is a listed user with that very name -/
 theorem configured_user_is_listed (users : List (Bytes × Bytes)) (name u pw : Bytes)
     (h : lookupUser users name = some (u, pw)) : u = name ∧ (u, pw) ∈ users :=
